@@ -22,6 +22,31 @@ CHECKS = {
                      "arguments beyond the boundary set are sampled.",
         technique="TLA+ spec (Encoder.tla) model-checked with TLC + TLC trace validation of recorded encoder calls (TraceEncoder.tla)",
     ),
+    "C05": dict(
+        category="model_checking",
+        text=("TLC model-checks DecoderImpl (window refill with istream eof semantics) against the property-level decoder "
+              "(AbsExpect: exhausted stream => end-of-input for every operation) for windows 2..7, every generated item, every "
+              "truncation and alignment; recorded executions of the real decoder on streams of length k*65535+d (and k*5+d on a "
+              "scaled window), string/file/unopened streams, first operation peek or read, and every truncation of every "
+              "generated item are validated event by event. File-level part (only complete blocks from a truncated file) is "
+              "covered by the reader traces of C01/C08."),
+        design_ref="DESIGN.md section 3 / C05",
+        note=TRUST + "lengths beyond 3 windows and cut points away from window/block boundaries are sampled, not exhaustive.",
+        technique="TLA+ spec (Decoder.tla) model-checked with TLC + TLC trace validation of recorded decoder calls (TraceDecoder.tla)",
+    ),
+    "C07": dict(
+        category="model_checking",
+        text=("TLC model-checks DecoderImpl against AbsExpect (value RFC 8949 assigns; skip consumes exactly one item) over the "
+              "bounded grammar CborGen (all major types, non-preferred widths, chunked strings, nested and indefinite containers, "
+              "tags, floats), all alignments to windows 2..7; TLC generates the same items as scenarios which the driver places at "
+              "every alignment around the real 65535-byte window (and exhaustively on a 5-byte window), reads/skips them and reads a "
+              "sentinel; every recorded outcome is validated against the specification."),
+        design_ref="DESIGN.md section 3 / C07",
+        note=TRUST + "the grammar slice is bounded (depth <= 6, about 130 item shapes); negative integers below -2^63 are outside "
+                     "the return type and excluded.",
+        technique="TLA+ spec (Decoder.tla, CborGen.tla) model-checked with TLC; TLC-generated items replayed on the real decoder and "
+                  "validated by TLC (TraceDecoder.tla)",
+    ),
 }
 
 PENDING_REASON = "check not built yet in this revision (specification in progress); see DESIGN.md"
